@@ -86,8 +86,9 @@ class TokenizeError(errors.InterfaceError, tokenize.TokenError):
 def generated_tokens(text):
     try:
         toky = list(tokenize.generate_tokens(_compat.token_io_readline(text)))
-    except (tokenize.TokenError, SyntaxError, UnicodeError) as error:
-        # For example an unterminated string, an unbalanced bracket or a broken number like "0x".
+    except (tokenize.TokenError, SyntaxError, SystemError, UnicodeError) as error:
+        # For example an unterminated string, an unbalanced bracket or a broken number like "0x". Some versions
+        # of Python report a NUL character after a line feed as SystemError.
         raise TokenizeError("cannot split %s into tokens: %s" % (_compat.text_repr(text), error))
     if len(toky) >= 2 and is_newline_token(toky[-2]) and is_eof_token(toky[-1]):
         # HACK: Remove newline that generated_tokens() adds starting with Python 3.x but not before.
